@@ -801,8 +801,8 @@ def payload_matches(body, A, op, shape, bi):
                     for d2 in defs.of(fl):
                         if d2[0] == "stmt" and d2[4]["k"] == "agg" and d2[4]["kind"].get("t") == "adt":
                             unknown = False
-                            if d2[4]["kind"]["variant"] == "Some":
-                                some = True
+                            if d2[4]["kind"]["variant"] == "Some" or (d2[4]["ops"] and not str(d2[4]["kind"].get("adt", "")).startswith(("std::", "core::"))):
+                                some = True       # `Some(x)`, or the payload-carrying variant of a private two-state enum
                         elif d2[0] == "stmt" and d2[4]["k"] == "use" and d2[4]["op"]["k"] == "const" and "None" in d2[4]["op"].get("text", ""):
                             unknown = False
                     if some or unknown:
